@@ -536,11 +536,11 @@ def run(ctx):
         CFG.update(max_sends=2, max_restarts=1, max_breaks=0)
         depthB = 11
     else:
-        CFG.update(max_sends=3, max_restarts=2, max_breaks=1)
-        depthB = 13
+        CFG.update(max_sends=2, max_restarts=2, max_breaks=1)
+        depthB = 12
     c07.CFG.update(max_sends=CFG["max_sends"], max_breaks=CFG["max_breaks"], kinds=("eof",))
     A, B = c07.POOL[ctx.seed % len(c07.POOL)]
-    stB = bfs.explore(ctx, SimB, [(("rootB", A, B),)], depthB, max_states=(60000 if ctx.quick else 300000), label="C09/B")
+    stB = bfs.explore(ctx, SimB, [(("rootB", A, B),)], depthB, max_states=(60000 if ctx.quick else 200000), label="C09/B")
     ctx.bounds = {"partA": dict(stA, depth=depthA), "partB": dict(stB, depth=depthB, **{k: CFG[k] for k in ("max_sends", "max_restarts", "max_breaks")})}
     ctx.outcomes.update(v["signature"].split("|")[0] for v in ctx.violations.values())
     ctx.outcomes.add("ok")
